@@ -117,7 +117,14 @@ fn gen_opts(ch: &mut Ch) -> Opts {
     // only combinations that do not hit documented panics matter less here: a panic is also an
     // outcome that must be reproducible
     let mut o = Opts::from_bits(ch.below(16), *ch.pick(&[Repr::Rust, Repr::Glam, Repr::Nalgebra]));
-    o.validate = *ch.pick(&[Validate::Off, Validate::All]);
+    // several capability sets: a call must not be influenced by the capabilities of earlier calls
+    o.validate = match ch.below(5) {
+        0 => Validate::Off,
+        1 => Validate::All,
+        2 => Validate::Default,
+        3 => Validate::Bits(naga::valid::Capabilities::all().bits() & !(1 << ch.below(24))),
+        _ => Validate::Bits(ch.raw()),
+    };
     o
 }
 
@@ -368,7 +375,7 @@ pub fn run(_sut: &dyn Sut, tier: Tier) -> ! {
         "std's per-process and per-HashSet random hash seeds differ between every process and every call".into(),
     ];
     run.canaries(&mut |v| eval_replay(_sut, v));
-    let n = tier.pick(200, 4000);
+    let n = tier.pick(600, 6000);
     let (_r, mut sampled) = sample(run.seed_for(1), n, (200, 900));
     let cases: Vec<Case> = sampled.trees.iter().map(|t| build_case(&mut Ch::new(&t.current()))).collect();
     let cache = RefCache { map: Mutex::new(HashMap::new()) };
